@@ -953,6 +953,7 @@ func (ex *Exec) pure(st *State, in *llread.Inst, ops []Val) (Val, bool) {
 			r, m, _ := ex.check(st, []*smt.Expr{over}, ex.ModelVars)
 			if r == smt.Sat {
 				ex.faultM(st, "poison-shift", "shift amount >= bit width", over, m)
+				st.Assume(c.Not(over))
 			} else if r == smt.Unknown {
 				ex.abort(st, "shift query inconclusive")
 				return Val{}, false
@@ -1083,6 +1084,7 @@ func (ex *Exec) pure(st *State, in *llread.Inst, ops []Val) (Val, bool) {
 			r, m, _ := ex.check(st, []*smt.Expr{bad}, ex.ModelVars)
 			if r == smt.Sat {
 				ex.faultM(st, "poison-"+in.Op, "value not representable (NaN or out of range)", bad, m)
+				st.Assume(inRange)
 			} else if r == smt.Unknown {
 				ex.abort(st, "fp conversion query inconclusive")
 				return Val{}, false
